@@ -46,7 +46,7 @@ CHECKS = {
   engine="e3_pool",
   technique="bounded-liveness check under deterministic simulation: the real CLI pass loop over real forked workers under seeded schedules, re-run on its own output until six applications (quiescence within the pass budget, no text comes back, per-folder bookkeeping), plus interleaved six-fold re-formatting chains inside one long-lived process compared with fresh-process references (E2)",
   text="Read as quiescence within N steps once inputs stop changing: after five applications a sixth must be a no-op and no earlier text may come back, through both implementations of the loop (format_code in a long-lived process; the CLI's MAX_MODULE_PASSES loop over pool workers with tasks migrating between warm workers). Exploration: inputs are sampled (the whole vendored corpus is swept in the chain batch), the protocol / warm-state dimension is what simulation adds.",
-  note="CLI clause only on trees without import edges between formatted files (there a file's pass sequence is exactly x, f(x), ...). Input diversity bounded by corpus + generators.",
+  note="CLI clause only on trees without import edges between formatted files (there a file's pass sequence is exactly x, f(x), ...). Input diversity bounded by corpus + generators. Known finding K7 (a chain of imports that guard each other loses one level per application; six levels exceed the budget) is listed in KNOWN_FINDINGS.txt and shown on every run by its pinned case in findings/C09/.",
   ref="DESIGN.md 4 (C09)"),
  "C20": dict(
   engine="e5_optout",
@@ -64,7 +64,7 @@ CHECKS = {
   engine="e3_pool",
   technique="deterministic simulation with the simulator owning the storage peer: generated package trees on a scratch disk in every layout of the statement, clients formatted by the real CLI under SimPool schedules (which worker, with which sys.modules / finder-cache history, handles which file; what it reads through tracing); oracle by executing original and final client text as two modules of one process and comparing object identity",
   text="Import normalisation consults the disk and the interpreter's import state, so it is not a function of the source string; the check builds the package tree, runs the real CLI over the clients sequentially and under seeded multi-worker schedules, and compares by execution which objects every function returns and every module variable holds before and after (identity, same process). Exploration over layouts x import forms x schedules x process histories (an earlier run over another project tree, E2 two-trees); known findings K4 (star import dropped while the name is also imported inside a function) and K6 (shadowed imports reordered) listed.",
-  note="Shape (i) only (static libraries); guessed imports of previously undefined names are not generated; definitions are matched by position because the tool may rename them outside safe mode.",
+  note="Shape (i) only (static libraries); guessed imports of previously undefined names are not generated; definitions are matched by position because the tool may rename them outside safe mode. Library layouts drawn per run since round 4: spelling of the export list (+=, append, extend, tuple, concatenation, annotated, empty), underscore names, relative re-exports inside packages with an optional top level decoy, a package directory next to a stale module of the same name, clients inside a package importing relatively, pairs of star imports. Four defects found that way were repaired in /repo; K4 / K6 stay listed and are shown on every run by their pinned cases in findings/C18/.",
   ref="DESIGN.md 4 (C18)"),
 }
 
@@ -105,7 +105,7 @@ def main():
         ],
         "checks": checks,
         "not_applicable": [{"property_id": k, "reason": v} for k, v in sorted(na.items())],
-        "notes": "Technique family: deterministic simulation with fault injection. ./vsim selftest proves determinism of every engine (same seeds, fresh interpreters, other hash seed and worker count). Exit codes: 0 held / known findings only, 1 VIOLATION, 2 harness error.",
+        "notes": "Listed findings (KNOWN_FINDINGS.txt) have a stored case each under findings/<property>/ that every check of the property re-executes first (KNOWN-FINDING line when it still violates, NOTE when it does not); cases are written only in the maintenance mode VERIF_PIN_FINDINGS=1. Technique family: deterministic simulation with fault injection. ./vsim selftest proves determinism of every engine (same seeds, fresh interpreters, other hash seed and worker count). Exit codes: 0 held / known findings only, 1 VIOLATION, 2 harness error.",
     }
     Path(__file__).resolve().parent.parent.joinpath("MANIFEST.json").write_text(json.dumps(m, indent=1) + "\n")
 
